@@ -4,6 +4,14 @@ Contracts on sharepoint2text/parsing/extractors/util/zip_bomb.py.  The spec
 predicate `spec_reject` is written from the property statement, not from the
 code: entry count, single size, total size, per-entry ratio, total ratio,
 non-empty entry with zero compressed size; directory entries ignored.
+
+Round 5: (1) "the configured limits" are under contract -- EXTRA `configuration` (C11_flow): field defaults of ZipBombLimits
+evaluated from the real class body == the documented configuration, the DEFAULT object, the `limits` parameter defaults, every
+guard call site forwards the configured limits; `limits_param(fn)` binds an omitted `limits` to what the real signature default
+denotes (C11Executor.config_object: module-level frozen-dataclass instance, field values evaluated; it may alias a caller's
+argument).  (2) C11Executor._filter_loop: an entry loop over a lazily filtered sequence (generator expression, one-line filter
+helper, filter / itertools.filterfalse) is executed as the loop-with-continue it is, under the LoopSpec of the original statement.
+Whatever is read off a code shape and not recognised is `unknown` (native replay decides), never a definite verdict.
 """
 import z3
 
@@ -200,6 +208,36 @@ LIMITS = p_obj("ZipBombLimits", {
     "max_total_compression_ratio": p_real(), "max_entry_compression_ratio": p_real()})
 
 
+def limits_param(fn_name):
+    """The `limits` parameter of a guard function.  A call that omits it gets what the REAL signature says: the default
+    expression of that parameter is read from the source and evaluated in the guard module (the module-level default
+    configuration object, field values from the real class body).  Anything else -> the call is OUT-OF-SUBSET."""
+    mk = p_obj("ZipBombLimits", {
+        "max_entries": p_int(), "max_total_uncompressed_bytes": p_int(), "max_single_uncompressed_bytes": p_int(),
+        "max_total_compression_ratio": p_real(), "max_entry_compression_ratio": p_real()})
+
+    def default(ex, st):
+        from pyvc.ops import Unsupported
+        import ast as _ast
+        node = ex.module.functions.get(fn_name) if ex.module.rel == ZB else None
+        if node is None:
+            raise Unsupported(f"default of `limits` of {fn_name}: called from another module")
+        a = node.args
+        dflt = None
+        for arg, d in list(zip(a.kwonlyargs, a.kw_defaults)) + list(zip((a.posonlyargs + a.args)[::-1], a.defaults[::-1])):
+            if arg.arg == "limits":
+                dflt = d
+        v = None
+        if isinstance(dflt, _ast.Name) and hasattr(ex, "config_object"):
+            v = ex.config_object(dflt.id, st)
+        if v is None:
+            raise Unsupported(f"call of {fn_name} without `limits`: its default "
+                              f"`{_ast.unparse(dflt) if dflt is not None else '<none>'}` is not a readable configuration object")
+        return v
+    mk.default = default
+    return mk
+
+
 def G(fn):
     """Contract clause guarded against shapes it was not written for: a Python exception inside a clause on changed code is a
     failure of the sidecar to line up with the code (OUT-OF-SUBSET -> native replay decides), never an engine error."""
@@ -250,7 +288,7 @@ def _contracts(reg):
     ))
     out.append(FnContract(
         target=f"{ZB}::validate_zipfile",
-        params=[("zf", p_ext("ZipFile")), ("limits", LIMITS), ("source", p_opt(p_str()))],
+        params=[("zf", p_ext("ZipFile")), ("limits", limits_param("validate_zipfile")), ("source", p_opt(p_str()))],
         requires=requires,
         hyps=lambda c: mono_lemma(c.args["zf"].t),
         ensures=[("accepts-only-if-not-spec_reject", lambda c: z3.Not(spec_reject(c.args["zf"].t, limits_of(c))))],
@@ -273,7 +311,7 @@ def _contracts(reg):
 
     out.append(FnContract(
         target=f"{ZB}::validate_zip_bytesio",
-        params=[("file_like", p_ext("BytesIO")), ("limits", LIMITS), ("source", p_opt(p_str()))],
+        params=[("file_like", p_ext("BytesIO")), ("limits", limits_param("validate_zip_bytesio")), ("source", p_opt(p_str()))],
         requires=pos_entry,
         ensures=[("position-restored", pos_restored),
                  ("no-container-left-open", lambda c: z3.BoolVal(not c.st.ghost.get("open_zips")))],
@@ -283,7 +321,7 @@ def _contracts(reg):
     ))
     out.append(FnContract(
         target=f"{ZB}::open_zipfile",
-        params=[("file_like", p_ext("BytesIO")), ("limits", LIMITS), ("source", p_opt(p_str()))],
+        params=[("file_like", p_ext("BytesIO")), ("limits", limits_param("open_zipfile")), ("source", p_opt(p_str()))],
         requires=lim_req,
         ensures=[("returned-container-validated", lambda c: z3.Not(spec_reject(c.result.t, limits_of(c)))),
                  ("returned-container-open", lambda c: z3.BoolVal(c.st.ghost.get("open_zips") == frozenset({c.result.t.get_id()})))],
@@ -310,7 +348,7 @@ def lemmas():
 
 # ------------------------------------- policy / typestate / error propagation --
 # Interprocedural dataflow obligations over the real package AST: contracts/C11_flow.py
-from contracts.C11_flow import policy, propagation  # noqa: E402
+from contracts.C11_flow import policy, propagation, configuration  # noqa: E402
 
 
 # --------------------------------------------------------------- executor --
@@ -335,6 +373,223 @@ class C11Executor(_verify.Executor):
             self._frozen = out
         return out
 
+    # -- `for x in (y for y in SRC if C)` / `for x in _helper(SRC)` where the helper returns such a filter: executed as the loop
+    #    it is -- `for y' in SRC: if not C: continue; x = y'; body` (a generator expression is lazy: same interleaving of filter
+    #    and body; a list comprehension is accepted when its filter only calls functions under a verified contract).  The loop
+    #    keeps the LoopSpec of the original `for` statement, so invariants stay indexed by the position in SRC.
+    def _filter_loop(self, s, st):
+        import ast as _ast
+        import copy
+        it = s.iter
+        subst = {}
+        comp = None
+        if isinstance(it, (_ast.GeneratorExp, _ast.ListComp)):
+            comp = it
+        elif isinstance(it, _ast.Call) and isinstance(it.func, _ast.Name) and it.func.id in self.module.functions and not it.keywords \
+                and all(isinstance(a, _ast.Name) for a in it.args) and st.lookup(it.func.id) is None:
+            callee = self.module.functions[it.func.id]
+            body = [b for b in callee.body if not (isinstance(b, _ast.Expr) and isinstance(b.value, _ast.Constant))]
+            a = callee.args
+            if len(body) == 1 and isinstance(body[0], _ast.Return) and isinstance(body[0].value, (_ast.GeneratorExp, _ast.ListComp)) \
+                    and not (a.vararg or a.kwarg or a.kwonlyargs or a.posonlyargs) and len(a.args) == len(it.args) and not callee.decorator_list:
+                comp = body[0].value
+                subst = {p.arg: arg.id for p, arg in zip(a.args, it.args)}
+        if comp is None:
+            comp = self._filter_call_as_genexp(it, st)
+        if comp is None or len(comp.generators) != 1:
+            return None
+        g = comp.generators[0]
+        if g.is_async or not isinstance(g.target, _ast.Name) or not isinstance(comp.elt, _ast.Name) or comp.elt.id != g.target.id:
+            return None
+        if isinstance(comp, _ast.ListComp):
+            for c in g.ifs:
+                for n in _ast.walk(c):
+                    if isinstance(n, _ast.Call) and not (isinstance(n.func, _ast.Name) and self.reg.get(f"{self.module.rel}::{n.func.id}") is not None):
+                        return None
+        fresh = f"__c11_item_{s.lineno}"
+        free = set()
+        for c in list(g.ifs) + [g.iter]:
+            free |= {n.id for n in _ast.walk(c) if isinstance(n, _ast.Name)}
+        free -= {g.target.id} | set(subst)
+        if subst and any(nm in st.frame.env for nm in free):
+            return None           # a name of the helper's scope is shadowed by a local of the caller
+
+        class Ren(_ast.NodeTransformer):
+            def visit_Name(self, n):
+                if n.id == g.target.id:
+                    return _ast.copy_location(_ast.Name(id=fresh, ctx=n.ctx), n)
+                if n.id in subst:
+                    return _ast.copy_location(_ast.Name(id=subst[n.id], ctx=n.ctx), n)
+                return n
+        src = Ren().visit(copy.deepcopy(g.iter))
+        conds = [Ren().visit(copy.deepcopy(c)) for c in g.ifs]
+        pre = []
+        if conds:
+            test = conds[0] if len(conds) == 1 else _ast.BoolOp(op=_ast.And(), values=conds)
+            pre.append(_ast.If(test=_ast.UnaryOp(op=_ast.Not(), operand=test), body=[_ast.Continue()], orelse=[]))
+        pre.append(_ast.Assign(targets=[copy.deepcopy(s.target)], value=_ast.Name(id=fresh, ctx=_ast.Load())))
+        new = _ast.For(target=_ast.Name(id=fresh, ctx=_ast.Store()), iter=src, body=pre + list(s.body), orelse=list(s.orelse), type_comment=None)
+        _ast.copy_location(new, s)
+        for n in pre + [new.target, src]:
+            for x in _ast.walk(n):
+                _ast.copy_location(x, s) if not hasattr(x, "lineno") else None
+        _ast.fix_missing_locations(new)
+        if not hasattr(self, "_desugared"):
+            self._desugared = {}
+        self._desugared[id(new)] = (s, new)
+        return new
+
+    def _filter_call_as_genexp(self, it, st):
+        """`filter(P, SRC)` / `itertools.filterfalse(P, SRC)` (both lazy) read as `(y for y in SRC if [not] P(y))`; P is a
+        one-parameter lambda (its body becomes the test) or a plain name (the call P(y) is the test; `None` = truthiness).
+        The builtin / itertools function is recognised through the real import table, not by spelling alone."""
+        import ast as _ast
+        import copy
+        if not (isinstance(it, _ast.Call) and len(it.args) == 2 and not it.keywords and not any(isinstance(a, _ast.Starred) for a in it.args)):
+            return None
+        f = it.func
+        neg = None
+        if isinstance(f, _ast.Name) and st.lookup(f.id) is None and f.id not in self.module.functions and f.id not in self.module.assigns:
+            imp = self.module.imports.get(f.id)
+            if f.id == "filter" and imp is None:
+                neg = False
+            elif imp == "itertools.filterfalse":
+                neg = True
+        elif isinstance(f, _ast.Attribute) and isinstance(f.value, _ast.Name) and f.attr == "filterfalse" \
+                and st.lookup(f.value.id) is None and self.module.imports.get(f.value.id) == "itertools":
+            neg = True
+        if neg is None:
+            return None
+        pred, src = it.args
+        item = "__c11_f"
+        if isinstance(pred, _ast.Lambda):
+            a = pred.args
+            if len(a.args) != 1 or a.vararg or a.kwarg or a.kwonlyargs or a.posonlyargs or a.defaults:
+                return None
+            par = a.args[0].arg
+
+            class R(_ast.NodeTransformer):
+                def visit_Name(self, n):
+                    return _ast.copy_location(_ast.Name(id=item, ctx=n.ctx), n) if n.id == par else n
+
+                def visit_Lambda(self, n):       # an inner lambda may rebind the name: not a shape read here
+                    raise LookupError("nested lambda")
+            try:
+                test = R().visit(copy.deepcopy(pred.body))
+            except LookupError:
+                return None
+        elif isinstance(pred, _ast.Name):
+            test = _ast.Call(func=_ast.Name(id=pred.id, ctx=_ast.Load()), args=[_ast.Name(id=item, ctx=_ast.Load())], keywords=[])
+        elif isinstance(pred, _ast.Constant) and pred.value is None:
+            test = _ast.Name(id=item, ctx=_ast.Load())
+        else:
+            return None
+        if neg:
+            test = _ast.UnaryOp(op=_ast.Not(), operand=test)
+        comp = _ast.GeneratorExp(elt=_ast.Name(id=item, ctx=_ast.Load()),
+                                 generators=[_ast.comprehension(target=_ast.Name(id=item, ctx=_ast.Store()), iter=copy.deepcopy(src),
+                                                                ifs=[test], is_async=0)])
+        _ast.copy_location(comp, it)
+        _ast.fix_missing_locations(comp)
+        return comp
+
+    def s_For(self, s, st):
+        try:
+            new = self._filter_loop(s, st)
+        except Exception:  # noqa -- not a shape this desugaring knows: the engine decides
+            new = None
+        return super().s_For(new if new is not None else s, st)
+
+    def loop_spec(self, node):
+        hit = getattr(self, "_desugared", {}).get(id(node))
+        return super().loop_spec(hit[0] if hit is not None else node)
+
+    # -- the module-level default configuration: a name bound exactly once at module level to `FrozenDataclass(**consts)` is an
+    #    immutable object whose fields are the constants the REAL class body / keywords give (evaluated, not assumed); one heap
+    #    object per path.  Any other shape stays what the engine makes of it (unknown value).
+    def config_object(self, name, st):
+        import ast as _ast
+        from pyvc.state import HeapObj
+        from pyvc.values import VRef
+        from contracts.C11_flow import const_value
+        m = self.module
+        e = m.assigns.get(name)
+        if not (isinstance(e, _ast.Call) and isinstance(e.func, _ast.Name) and e.func.id in self._frozen_classes() and not e.args
+                and all(k.arg for k in e.keywords)):
+            return None
+        stores = [n for n in _ast.walk(m.tree) if (isinstance(n, _ast.Name) and n.id == name and isinstance(n.ctx, (_ast.Store, _ast.Del)))
+                  or (isinstance(n, _ast.Global) and name in n.names)]
+        if len(stores) != 1:
+            return None
+        key = f"c11!config:{name}"
+        ref = st.ghost.get(key)
+        if ref is not None and ref in st.heap:
+            return VRef(ref)
+        cls = m.classes[e.func.id]
+        if any(isinstance(n, _ast.FunctionDef) and n.name in ("__init__", "__new__", "__getattribute__", "__getattr__") for n in cls.body) or \
+                [b for b in cls.bases if not (isinstance(b, _ast.Name) and b.id == "object")]:
+            return None
+        fields = {}
+        try:
+            for n in cls.body:
+                if isinstance(n, _ast.AnnAssign) and isinstance(n.target, _ast.Name):
+                    if n.value is None:
+                        fields[n.target.id] = None
+                    else:
+                        fields[n.target.id] = const_value(m, n.value)
+            for k in e.keywords:
+                if k.arg not in fields:
+                    return None
+                fields[k.arg] = const_value(m, k.value)
+        except LookupError:
+            return None
+        if not fields or any(v is None for v in fields.values()):
+            return None
+        data = {}
+        for f, v in fields.items():
+            ann = next((_ast.unparse(n.annotation) for n in cls.body if isinstance(n, _ast.AnnAssign) and getattr(n.target, "id", None) == f), "")
+            data[f] = ops.lift(float(v) if ann == "float" and isinstance(v, int) else v)
+        ref = st.alloc(HeapObj("obj", data, e.func.id, fresh=False), self.refs)
+        st.ghost[key] = ref
+        return VRef(ref)
+
+    # -- a configuration handed in by the caller MAY be the module-level default object itself (that is what every in-library
+    #    caller passes): `param is DEFAULT` is neither true nor false -- a fresh Boolean that, when true, makes the two objects
+    #    agree on every field.  `==` of two instances is the dataclass field-tuple equality.
+    def compare(self, st, op, a, b, node):
+        from pyvc.values import VRef
+        if op in ("Is", "IsNot", "Eq", "NotEq") and isinstance(a, VRef) and isinstance(b, VRef) and a.ref != b.ref:
+            try:
+                cfg = {v for k, v in st.ghost.items() if isinstance(k, str) and k.startswith("c11!config:")}
+                oa, ob = st.heap.get(a.ref), st.heap.get(b.ref)
+                if len({a.ref, b.ref} & cfg) == 1 and oa is not None and ob is not None and oa.kind == ob.kind == "obj" and oa.cls == ob.cls \
+                        and oa.cls in self._frozen_classes() and set(oa.data) == set(ob.data):
+                    other = ob if a.ref in cfg else oa
+                    same = z3.And([ops.eq_term(oa.data[f], ob.data[f]) for f in sorted(oa.data)])
+                    cls = self.module.classes[oa.cls]
+                    import ast as _ast
+                    own_eq = any(isinstance(n, _ast.FunctionDef) and n.name in ("__eq__", "__ne__") for n in cls.body) or any(
+                        isinstance(d, _ast.Call) and any(k.arg == "eq" for k in d.keywords) for d in cls.decorator_list)
+                    if op in ("Eq", "NotEq") and not own_eq:
+                        return [(st, VBool(same if op == "Eq" else z3.Not(same)))]
+                    if op in ("Is", "IsNot") and not other.fresh:
+                        alias = z3.Bool(fresh_name("is_default_object"))
+                        st.assume(z3.Implies(alias, same))
+                        return [(st, VBool(alias if op == "Is" else z3.Not(alias)))]
+            except (ops.Unsupported, KeyError, AttributeError, TypeError):
+                pass
+        return super().compare(st, op, a, b, node)
+
+    def e_Name(self, n, st):
+        if st.lookup(n.id) is None and n.id in self.module.assigns:
+            try:
+                v = self.config_object(n.id, st)
+            except Exception:  # noqa -- not a shape read here: the engine decides
+                v = None
+            if v is not None:
+                return [(st, v)]
+        return super().e_Name(n, st)
+
     def mutated_refs(self, stmts, st):
         refs = super().mutated_refs(stmts, st)
         frozen = self._frozen_classes()
@@ -349,7 +604,7 @@ class C11Executor(_verify.Executor):
 
 EXECUTOR = C11Executor
 
-EXTRA = [policy, propagation]
+EXTRA = [policy, propagation, configuration]
 
 TRUSTED = ["zipfile.ZipFile.infolist()/ZipInfo fields present the central directory (assumed view)"]
 ASSUMED_MODELS = ["zipfile.ZipFile (constructor, infolist, close, context manager)", "zipfile.ZipInfo.file_size/compress_size/is_dir",
